@@ -60,17 +60,40 @@ def pure_generator(func):
     return ok
 
 
+def is_generator_object(st, ref):
+    f = st.obj(ref).fields
+    return "@gen" in f or "@genc" in f
+
+
+def pure_generator_object(self, st, ref):
+    f = st.obj(ref).fields
+    if "@gen" in f:
+        return pure_generator(f["@gen"][0])
+    cref = f["@genc"][0]
+    info = getattr(self, "closure_nodes", {}).get(st.obj(cref).fields.get("@node"))
+    if info is None:
+        return False
+
+    class _F(object):
+        node = info[0]
+    return pure_generator(_F)
+
+
 def force(self, st, ref, node):
     """Run the body of a generator object now, to its end: the object becomes a concrete iterator over what it yields.
     -> outcomes (state, "val", ref) | (state, "raise", exc).  Exact when the consumer takes everything at once
     (list(), extend(), join ...); for a partial consumer (next(), a loop with break) only for a pure generator."""
     o = st.obj(ref)
-    func, args, kwargs, self_val = o.fields["@gen"]
     self._forcing_generator = getattr(self, "_forcing_generator", 0) + 1
     saved = getattr(self, "eager_generators", False)
     self.eager_generators = True
     try:
-        outs = self.call_function(st, func, list(args), dict(kwargs), node, self_val=self_val)
+        if "@genc" in o.fields:
+            cref, args, kwargs = o.fields["@genc"]
+            outs = self.call_closure(st, cref, list(args), dict(kwargs), node)
+        else:
+            func, args, kwargs, self_val = o.fields["@gen"]
+            outs = self.call_function(st, func, list(args), dict(kwargs), node, self_val=self_val)
     finally:
         self.eager_generators = saved
         self._forcing_generator -= 1
@@ -81,6 +104,7 @@ def force(self, st, ref, node):
             continue
         w = s.wobj(ref)
         w.fields.pop("@gen", None)
+        w.fields.pop("@genc", None)
         w.fields["@pos"] = 0
         w.items = list(v)
         res.append((s, "val", ref))
@@ -89,7 +113,7 @@ def force(self, st, ref, node):
 
 def leaves_concrete(st, ref):
     o = st.obj(ref)
-    if "@gen" in o.fields:
+    if "@gen" in o.fields or "@genc" in o.fields:
         return False
     if o.items is not None:
         return True
@@ -100,8 +124,8 @@ def leaves_concrete(st, ref):
 
 def pull(self, st, ref, node, _depth=0):
     o = st.obj(ref)
-    if "@gen" in o.fields:
-        if not pure_generator(o.fields["@gen"][0]):
+    if "@gen" in o.fields or "@genc" in o.fields:
+        if not pure_generator_object(self, st, ref):
             raise _U()("next() on a generator that has effects at %s" % self.loc(node))
         res = []
         for (s, k, v) in force(self, st, ref, node):
